@@ -136,6 +136,9 @@ impl Puppets {
             }
         }
         let node = Cluster::start_node(&topo, &cfg, &scratch, r).await;
+        if !full_node {
+            Cluster::spawn_feeder(std::slice::from_ref(&node), seed);
+        }
         let mut blocks = HashMap::new();
         blocks.insert(Digest::default(), Block::genesis());
         Self {
